@@ -200,8 +200,6 @@ def run(cfg, ctx):
     # current assumptions before it is used), which keeps the queries small.  Stop at the first failing cycle.
     lemmas = []
     for t, (ob, asm_t) in enumerate(per_cycle):
-        labs = [lab for lab, _ in ob]
-
         def detail(m, ob=ob, t=t):
             return [f"cycle {t}: {lab}" for lab, c in ob if z3.is_false(m.eval(c, model_completion=True))]
 
